@@ -119,22 +119,30 @@ def _min_loop_unit(relpath, cls, submod_name, subcls_name, route_key, with_gw, m
     spec = dict(inv=inv, prop={"every-smaller-k-was-proven-infeasible": P, "not-yet-marked-solved": P},
                 modifies=list(modifies))
     if range_prop:
-        def on_entry2(ns):
+        def on_entry2(ns, it):
+            # range clause (C03/C04/C09): every k from the lower bound up to a number of routes that always suffices is tried.
+            # A decomposition / cover with at most |E| - |V| + 2 routes always exists, so the range must reach that value.
             me = ns["self"]
-            seq_hi = ns.get("__range_hi")
+            from pyvc.heap import SymRange
+            c = core.ctx()
+            if isinstance(it, SymRange):
+                c.prove("range:search-starts-at-the-lower-bound", lift(it.lo) == me.lb.t, prop=range_prop, kind="pre")
+                c.prove("range:search-reaches-a-sufficient-k(|E|-|V|+2)", lift(it.hi) >= me.G.m.t - me.G.n.t + 3, prop=range_prop, kind="pre")
+            else:
+                c.prove("range:search-range-is-symbolic", False, kind="pre")
         spec["on_entry"] = on_entry2
-    return Unit(relpath, cls + ".solve", h, globs=glob, loops={0: spec}, props=[P], assumptions=[A_SOLVER],
+    return Unit(relpath, cls + ".solve", h, globs=glob, loops={0: spec}, props=[P] + ([range_prop] if range_prop else []), assumptions=[A_SOLVER],
                 callee_contracts=["%s.solve/is_solved/get_solution (AbstractPathModelDAG/AbstractWalkModelDiGraph.solve contract)" % subcls_name,
                                   "SolverWrapper.get_model_status", "set_solved", "get_lowerbound_k (returns an int)"])
 
 
 def u_min_loops():
     return [
-        _min_loop_unit("flowpaths/minflowdecomp.py", "MinFlowDecomp", "kflowdecomp", "kFlowDecomp", "paths", True),
-        _min_loop_unit("flowpaths/minflowdecompcycles.py", "MinFlowDecompCycles", "kflowdecompcycles", "kFlowDecompCycles", "walks", True,
+        _min_loop_unit("flowpaths/minflowdecomp.py", "MinFlowDecomp", "kflowdecomp", "kFlowDecomp", "paths", True, range_prop="C03"),
+        _min_loop_unit("flowpaths/minflowdecompcycles.py", "MinFlowDecompCycles", "kflowdecompcycles", "kFlowDecompCycles", "walks", True, range_prop="C04",
                        modifies=[(("self", "solve_statistics"), lambda old: TrackedDict()), (("self", "solve_time_ilp_total"), None)]),
-        _min_loop_unit("flowpaths/minpathcover.py", "MinPathCover", "kpathcover", "kPathCover", "paths", False),
-        _min_loop_unit("flowpaths/minpathcovercycles.py", "MinPathCoverCycles", "kpathcovercycles", "kPathCoverCycles", "walks", False),
+        _min_loop_unit("flowpaths/minpathcover.py", "MinPathCover", "kpathcover", "kPathCover", "paths", False, range_prop="C09"),
+        _min_loop_unit("flowpaths/minpathcovercycles.py", "MinPathCoverCycles", "kpathcovercycles", "kPathCoverCycles", "walks", False, range_prop="C09"),
     ]
 
 
